@@ -54,6 +54,8 @@ def frames_of(data, lenient=True):
 
 
 def raw_frames(data):
+    if data is not None and data.startswith(wire.PREFACE):
+        data = data[24:]
     try:
         return wire.split_frames(data)
     except wire.WireError:
@@ -222,8 +224,27 @@ def oracle_C18(run):
     return out
 
 
+def preface_state(run, i, c):
+    """for a server connection: (bytes received before op i, did they match the client preface so far)"""
+    seen = b''
+    for j in range(i):
+        op, ol, ml, obs = run.log[j]
+        if obs is not None and is_recv(op) and conn_of(op) == c:
+            seen += (obs.get('xfer_data') if op['op'] == 'xfer' else op['data']) or b''
+            if len(seen) > 24:
+                break
+    return len(seen), seen[:24] == wire.PREFACE[:len(seen[:24])]
+
+
 def before_buf_empty(run, i, c):
-    """was c's inbound buffer empty before op i (last peek field of the previous obs of c)"""
+    """was c's inbound buffer empty before op i (last peek field of the previous obs of c), and — for a server — is
+    the client preface out of the way (already received, or leading this very delivery)"""
+    if not run.world.conns[c].client:
+        n, ok = preface_state(run, i, c)
+        op = run.log[i][0]
+        data = (run.log[i][3].get('xfer_data') if op['op'] == 'xfer' else op.get('data')) or b''
+        if not ok or (n < 24 and not (n == 0 and data.startswith(wire.PREFACE))):
+            return False
     for j in range(i - 1, -1, -1):
         op, ol, ml, obs = run.log[j]
         if obs is not None and conn_of(op) == c:
@@ -253,7 +274,7 @@ def oracle_C19(run):
             if obs['outbuf']:
                 out.append(fail('goaway-did-not-discard-output', i, left=len(obs['outbuf'])))
                 continue
-        if obs['snap_before']['state'] != 'CLOSED':
+        if obs['snap_before']['state'] != 'CLOSED' or o in ('data_to_send', 'clear_out', 'q'):
             continue
         app = obs.get('appended')
         if app is None:
@@ -413,7 +434,7 @@ def oracle_C03(run):
             if r[0] != 'ok' or not before_buf_empty(run, i, c) or buflen(ol) != '0':
                 L.tainted = True          # partial processing cannot be reconstructed from the outside
                 continue
-            rfs = raw_frames(data if (c in getattr(run, '_preface_done', set()) or run.world.conns[c].client) else strip_preface(run, c, data))
+            rfs = raw_frames(data)
             if rfs is None:
                 L.tainted = True
                 continue
